@@ -327,6 +327,12 @@ class C19(Check):
             res.append(Violation('C19.enabled-although-identity-too-long', 'budget',
                                  f'message with empty description has {msg_len("")} bytes'))
             return res
+        for _q, data, _a in ctx.get('delivered', ()):
+            try:
+                if not isinstance(json.loads(data[:1024].decode('utf-8')), dict):
+                    bump('c19.non-object-json')
+            except (UnicodeDecodeError, ValueError, RecursionError):
+                pass
         # ---- answers iff discovery request; keeps answering
         if ctx.get('task_exc') or not ctx['alive']:
             # which datagram killed it?
@@ -339,7 +345,6 @@ class C19(Check):
                 try:
                     kobj = json.loads(killer[:1024].decode('utf-8'))
                     kind = 'json-' + type(kobj).__name__
-                    bump('c19.non-object-json')
                 except UnicodeDecodeError:
                     kind = 'invalid-utf8'
                     bump('c19.invalid-utf8')
